@@ -140,7 +140,7 @@ def entries_count(s):
 def max_seq(ents):
     return max(int(t.split(':')[1], 16) for t in ents.split(','))
 
-def validate(calls, ops, opts, model_exe, res, keys_known, check_every_layout=True, max_problems=5):
+def validate(calls, ops, opts, model_exe, res, keys_known, check_every_layout=True, max_problems=12):
     """Walk the trace, drive the model; fills res (K2Result)."""
     m = Model(model_exe)
     rev = int(opts.get('comparator', 0)) == 1
